@@ -3,6 +3,9 @@ import RlModel.Model.Exec
 namespace RlModel
 open List
 
+deriving instance ReflBEq for Val
+deriving instance LawfulBEq for Val
+
 /-! ### chunk builder -/
 
 theorem builder_flat (cap : Nat) (rows cur : List Row) :
@@ -182,5 +185,152 @@ theorem limitLoop_spec (n off : Nat) (hn : n ≠ 0) (cs : List Chunk) (p : Nat) 
 
 theorem limitLoop_zero (off : Nat) (cs : List Chunk) (p : Nat) : limitLoop 0 off cs p = [] := by
   cases cs <;> simp [limitLoop]
+
+/-! ### the two aggregate accumulation paths -/
+
+theorem maxVal_null_right (s : Val) : maxVal s .null = s := by
+  unfold maxVal; cases s <;> simp [Val.isNull]
+theorem minVal_null_right (s : Val) : minVal s .null = s := by
+  unfold minVal; cases s <;> simp [Val.isNull]
+
+theorem foldl_max_nonNull (s : Val) (vs : List Val) :
+    vs.foldl maxVal s = (nonNull vs).foldl maxVal s := by
+  induction vs generalizing s with
+  | nil => rfl
+  | cons v vs ih =>
+    unfold nonNull
+    simp only [List.foldl_cons, List.filter_cons]
+    cases hv : v.isNull
+    · simp only [Bool.not_false, if_true, List.foldl_cons]; exact ih _
+    · have : v = .null := by cases v <;> simp_all [Val.isNull]
+      subst this
+      simp only [Bool.not_true, Bool.false_eq_true, if_false, maxVal_null_right]; exact ih _
+
+theorem foldl_min_nonNull (s : Val) (vs : List Val) :
+    vs.foldl minVal s = (nonNull vs).foldl minVal s := by
+  induction vs generalizing s with
+  | nil => rfl
+  | cons v vs ih =>
+    unfold nonNull
+    simp only [List.foldl_cons, List.filter_cons]
+    cases hv : v.isNull
+    · simp only [Bool.not_false, if_true, List.foldl_cons]; exact ih _
+    · have : v = .null := by cases v <;> simp_all [Val.isNull]
+      subst this
+      simp only [Bool.not_true, Bool.false_eq_true, if_false, minVal_null_right]; exact ih _
+
+theorem foldl_aggAppend_max (s : Val) (vs : List Val) :
+    vs.foldl (aggAppend .max) (.value s) = .value (vs.foldl maxVal s) := by
+  induction vs generalizing s with
+  | nil => rfl
+  | cons v vs ih => simp only [List.foldl_cons, aggAppend]; exact ih _
+
+theorem foldl_aggAppend_min (s : Val) (vs : List Val) :
+    vs.foldl (aggAppend .min) (.value s) = .value (vs.foldl minVal s) := by
+  induction vs generalizing s with
+  | nil => rfl
+  | cons v vs ih => simp only [List.foldl_cons, aggAppend]; exact ih _
+
+theorem rowpath_max_eq_spec (vs : List Val) : rowPathVal .max vs = aggVal .max vs := by
+  unfold rowPathVal initAgg aggVal aggMax
+  rw [foldl_aggAppend_max, foldl_max_nonNull]; rfl
+
+theorem rowpath_min_eq_spec (vs : List Val) : rowPathVal .min vs = aggVal .min vs := by
+  unfold rowPathVal initAgg aggVal aggMin
+  rw [foldl_aggAppend_min, foldl_min_nonNull]; rfl
+
+theorem foldl_aggAppend_count (n : Nat) (vs : List Val) :
+    vs.foldl (aggAppend .count) (.value (.i32 n)) = .value (.i32 ((n + (nonNull vs).length : Nat))) := by
+  induction vs generalizing n with
+  | nil => simp [nonNull]
+  | cons v vs ih =>
+    by_cases hv : v = .null
+    · subst hv
+      have h1 : nonNull (Val.null :: vs) = nonNull vs := by simp [nonNull, Val.isNull]
+      have h2 : aggAppend .count (.value (.i32 n)) .null = .value (.i32 n) := by
+        simp [aggAppend, addExt, Val.isNull, plusVal]
+      rw [h1, List.foldl_cons, h2]; exact ih n
+    · have hn : v.isNull = false := by cases v <;> simp_all [Val.isNull]
+      have h1 : nonNull (v :: vs) = v :: nonNull vs := by simp [nonNull, hn]
+      have h2 : aggAppend .count (.value (.i32 n)) v = .value (.i32 ((n + 1 : Nat))) := by
+        simp [aggAppend, addExt, Val.isNull, plusVal]
+      rw [h1, List.foldl_cons, h2, ih (n + 1)]
+      congr 2
+      simp only [List.length_cons]; omega
+
+theorem rowpath_count_eq_spec (vs : List Val) : rowPathVal .count vs = aggVal .count vs := by
+  unfold rowPathVal initAgg aggVal aggCount
+  have := foldl_aggAppend_count 0 vs
+  simp only [Nat.zero_add] at this
+  have e : (Val.i32 0) = Val.i32 ((0 : Nat) : Int) := rfl
+  rw [e, this]; rfl
+
+theorem foldl_aggAppend_rowcount (n : Nat) (vs : List Val) :
+    vs.foldl (aggAppend .rowCount) (.value (.i32 n)) = .value (.i32 ((n + vs.length : Nat))) := by
+  induction vs generalizing n with
+  | nil => simp
+  | cons v vs ih =>
+    simp only [List.foldl_cons, aggAppend, addExt, Val.isNull, plusVal, Bool.false_eq_true, if_false, Option.getD_some, List.length_cons]
+    have e : ((n : Int) + 1) = ((n + 1 : Nat) : Int) := by omega
+    rw [e, ih]; congr 2; omega
+
+theorem rowpath_rowcount_eq_spec (vs : List Val) : rowPathVal .rowCount vs = aggVal .rowCount vs := by
+  unfold rowPathVal initAgg aggVal aggRowCount
+  have := foldl_aggAppend_rowcount 0 vs
+  simp only [Nat.zero_add] at this
+  have e : (Val.i32 0) = Val.i32 ((0 : Nat) : Int) := rfl
+  rw [e, this]; rfl
+
+/-- row-path SUM over `k` leading NULLs followed by non-NULL INT values is the SQL sum. -/
+theorem foldl_aggAppend_sum_i32 (n : Int) (ws : List Int) :
+    (ws.map Val.i32).foldl (aggAppend .sum) (.value (.i32 n)) = .value (.i32 (n + sumInts ws)) := by
+  induction ws generalizing n with
+  | nil => simp [sumInts]
+  | cons w ws ih =>
+    simp only [List.map_cons, List.foldl_cons, aggAppend, addExt, Val.isNull, plusVal, Bool.false_eq_true, if_false, Option.getD_some, sumInts]
+    rw [ih]; congr 2; omega
+
+theorem foldl_aggAppend_sum_nulls (k : Nat) (rest : List Val) :
+    (List.replicate k Val.null ++ rest).foldl (aggAppend .sum) (.value .null) =
+      rest.foldl (aggAppend .sum) (.value .null) := by
+  induction k with
+  | zero => simp
+  | succ k ih =>
+    simp only [List.replicate_succ, List.cons_append, List.foldl_cons, aggAppend, addExt, Val.isNull, if_true]
+    exact ih
+
+theorem intsOf_map_i32 (ws : List Int) : intsOf (ws.map Val.i32) = ws := by
+  unfold intsOf
+  induction ws with
+  | nil => rfl
+  | cons w ws ih => simp [Val.int?, ih]
+
+theorem nonNull_replicate_append (k : Nat) (ws : List Int) :
+    nonNull (List.replicate k Val.null ++ ws.map Val.i32) = ws.map Val.i32 := by
+  unfold nonNull
+  rw [List.filter_append]
+  have h1 : (List.replicate k Val.null).filter (fun v => !v.isNull) = [] := by
+    rw [List.filter_eq_nil_iff]; intro a ha; simp [List.mem_replicate] at ha; simp [ha.2, Val.isNull]
+  have h2 : (ws.map Val.i32).filter (fun v => !v.isNull) = ws.map Val.i32 := by
+    rw [List.filter_eq_self]; intro a ha; simp at ha; obtain ⟨w, _, rfl⟩ := ha; rfl
+  rw [h1, h2]; rfl
+
+theorem rowpath_sum_partial (k : Nat) (ws : List Int) :
+    rowPathVal .sum (List.replicate k Val.null ++ ws.map Val.i32) =
+      aggVal .sum (List.replicate k Val.null ++ ws.map Val.i32) := by
+  have hs : ∀ X, aggVal .sum X = aggSum X := fun _ => rfl
+  rw [hs]
+  unfold rowPathVal initAgg aggSum
+  rw [foldl_aggAppend_sum_nulls, nonNull_replicate_append]
+  cases ws with
+  | nil => rfl
+  | cons w ws =>
+    simp only [List.map_cons, List.foldl_cons, aggAppend, addExt, Val.isNull, if_true]
+    rw [foldl_aggAppend_sum_i32]
+    have := intsOf_map_i32 (w :: ws)
+    simp only [List.map_cons] at this
+    rw [this]
+    simp [AggState.result, Val.withInt, sumInts]
+
 
 end RlModel
